@@ -19,8 +19,9 @@
 EXTENDS Integers, Sequences, FiniteSets, TLC, SequencesExt
 
 CONSTANTS Variant,
-          StraddleOK   \* FALSE: early-fetched data stored after a reorg that happened while it was being fetched counts as stale
-                       \* (the documented purpose of HandleChainReorg); TRUE: tolerated (the pinned tree)
+          StraddleOK   \* what FetchOnly does with data whose fetch straddled a chain reorg:
+                       \* FALSE: not cached (the documented purpose of HandleChainReorg: after a reorg consensus re-fetches)
+                       \* TRUE:  cached all the same (the pinned tree: the reorg only clears what is already in the cache)
 
 VARIABLES conf,       \* [electra, only0, builder, nsubs, suberr, v2, gmode, gbase, gappend, gprod, gdef, gpks]
           calls,      \* call id -> call record
@@ -139,7 +140,8 @@ Settle(c, nc, cache0) ==
     THEN LET set == RespSet(nc)
              votes == \A rec \in set : rec.root = nc.head
          IN /\ calls' = Put(calls, c, [nc EXCEPT !.status = "done", !.result = "ok"])
-            /\ cache' = IF votes \/ Variant = "cache_any_head" THEN Put(cache0, nc.duty.slot, [set |-> set, gen |-> reorgs, by |-> c]) ELSE cache0
+            /\ cache' = IF (votes \/ Variant = "cache_any_head") /\ (nc.sgen = reorgs \/ StraddleOK)
+                          THEN Put(cache0, nc.duty.slot, [set |-> set, gen |-> reorgs, by |-> c]) ELSE cache0
             /\ UNCHANGED delivered
   ELSE LET set == RespSet(nc)
            noop == nc.duty.type \in NoopTypes /\ set = {} /\ ~nc.usedcache
@@ -159,8 +161,14 @@ NewCall(kind, duty, defs, addr, head) ==
 
 Init == calls = Empty /\ cache = Empty /\ reorgs = 0 /\ delivered = <<>> /\ xlog = <<>>
 
+\* Which definition is visited next is the implementation's choice (Go map order).  The actions take a filter `ok` on the
+\* continuations: the design check passes TRUE; trace validation passes "agrees with the logged next request", and when no
+\* continuation agrees an arbitrary one is taken so that the CONSTRAINT can name what differs.
+Pick(S, ok(_)) == IF \E x \in S : ok(x) THEN {x \in S : ok(x)} ELSE {CHOOSE x \in S : TRUE}
+AnyCont(x) == TRUE
+
 \* Fetch(ctx, duty, defSet)
-StartFetch(c, duty, defs) ==
+StartFetchF(c, duty, defs, ok(_)) ==
   /\ c \notin DOMAIN calls
   /\ UNCHANGED <<conf, reorgs, xlog>>
   /\ LET base == NewCall("fetch", duty, defs, "", 0) IN
@@ -170,26 +178,29 @@ StartFetch(c, duty, defs) ==
        THEN Settle(c, [base EXCEPT !.status = "finishing", !.usedcache = TRUE, !.resp = cache[duty.slot].set,
                                    !.cgen = cache[duty.slot].gen, !.cby = calls[cache[duty.slot].by].sgen],
                    [s \in DOMAIN cache \ {duty.slot} |-> cache[s]])
-     ELSE \E nc \in NextUnit([base EXCEPT !.todo = Units("fetch", duty, defs)]) : Settle(c, nc, cache)
+     ELSE \E nc \in Pick(NextUnit([base EXCEPT !.todo = Units("fetch", duty, defs)]), ok) : Settle(c, nc, cache)
+StartFetch(c, duty, defs) == StartFetchF(c, duty, defs, AnyCont)
 
 \* FetchOnly(ctx, duty, defSet, bnAddr, headBlockRoot)
-StartOnly(c, duty, defs, addr, head) ==
+StartOnlyF(c, duty, defs, addr, head, ok(_)) ==
   /\ c \notin DOMAIN calls
   /\ UNCHANGED <<conf, reorgs, xlog>>
   /\ LET base == NewCall("only", duty, defs, addr, head) IN
      IF duty.type # "attester"
        THEN calls' = Put(calls, c, Fail(base, "internal")) /\ UNCHANGED <<cache, delivered>>
      ELSE LET kept == IF Variant = "no_evict" THEN cache ELSE [s \in {x \in DOMAIN cache : x >= duty.slot} |-> cache[s]] IN
-          \E nc \in NextUnit([base EXCEPT !.todo = Units("only", duty, defs)]) : Settle(c, nc, kept)
+          \E nc \in Pick(NextUnit([base EXCEPT !.todo = Units("only", duty, defs)]), ok) : Settle(c, nc, kept)
+StartOnly(c, duty, defs, addr, head) == StartOnlyF(c, duty, defs, addr, head, AnyCont)
 
 Blocked(c) == c \in DOMAIN calls /\ calls[c].status = "blocked"
 UnitPk(cl) == IF cl.duty.type = "attester" THEN "" ELSE cl.unit.u
 \* the pending dependency of c answers
-Release(c, ans) ==
+ReleaseF(c, ans, ok(_)) ==
   /\ Blocked(c)
   /\ UNCHANGED <<conf, reorgs>>
   /\ xlog' = Append(xlog, [c |-> c, req |-> calls[c].req, ans |-> ans, pk |-> UnitPk(calls[c])])
-  /\ \E nc \in After(calls[c], ans) : Settle(c, nc, cache)
+  /\ \E nc \in Pick(After(calls[c], ans), ok) : Settle(c, nc, cache)
+Release(c, ans) == ReleaseF(c, ans, AnyCont)
 \* the caller's context ends while c is blocked ("cancel" / "deadline")
 Cancel(c, how) == Release(c, ErrAns(how))
 \* HandleChainReorg
@@ -263,8 +274,11 @@ CacheSound ==
        /\ \A rec \in e.set : rec.root = calls[e.by].head
        /\ calls[e.by].duty.slot = s
        /\ e.gen = reorgs
-       /\ StraddleOK \/ calls[e.by].sgen = reorgs
-  /\ \A c \in DOMAIN calls : calls[c].usedcache => (calls[c].cgen = calls[c].sgen /\ (StraddleOK \/ calls[c].cby = calls[c].sgen))
+  /\ \A c \in DOMAIN calls : calls[c].usedcache => calls[c].cgen = calls[c].sgen
+\* ... and that was fetched entirely after the last reorg
+CacheFresh ==
+  /\ \A s \in DOMAIN cache : calls[cache[s].by].sgen = reorgs
+  /\ \A c \in DOMAIN calls : calls[c].usedcache => calls[c].cby = calls[c].sgen
 Safety == RandaoBinding /\ AttRootBinding /\ SyncRootBinding /\ AggOnlySelected /\ SyncOnlySelected /\ SubsExact
-          /\ NoResultUnresolved /\ OnlyDefined /\ AttesterComplete /\ CacheSound
+          /\ NoResultUnresolved /\ OnlyDefined /\ AttesterComplete /\ CacheSound /\ CacheFresh
 ====
